@@ -77,7 +77,13 @@ def gen(seed, tier):
                 seg(0, [g.f_long(20, icao, None, bds17([9, 16, 24]))])]
         for _ in range(r.randint(2, 6)):
             k = r.random()
-            m = c10.ambiguous_50_60(g) if k < 0.3 else c10.clean_reg(g, r.choice(["40", "50", "60"]))
+            if k < 0.2:
+                # weather report, then something that carries no weather: an empty MB field, a callsign, an ACAS report
+                segs.append(seg(0, [g.f_long(r.choice([20, 21]), icao, None, bds44(r.randint(9, 15), r.randint(1, 250), r.randint(1, 511), r.randint(0, 1), r.randint(1, 230),
+                                                                                     r.randint(1, 2047), r.randint(1, 3), r.randint(1, 63)))]))
+                segs.append(seg(0, [g.f_long(r.choice([20, 21]), icao, None, r.choice([0, bds20([r.randint(1, 26) for _ in range(8)]), bds30(r.getrandbits(20))]))]))
+                continue
+            m = c10.ambiguous_50_60(g) if k < 0.4 else c10.clean_reg(g, r.choice(["40", "50", "60"]))
             segs.append(seg(0, [g.f_long(r.choice([20, 21]), icao, None, m)]))
         cases.append(H("C11-b%d" % i, o, segs))
     n = 220 if tier == "quick" else 2500
@@ -131,6 +137,21 @@ def oracle(parts, outcome, obs):
                 for f in ALL:
                     if f not in allowed and norm(f, rows[icao].get(f)) != norm(f, prev[icao].get(f)):
                         fails.append("segment %d: DF%d TC%d.%d frame changed %s (%s -> %s), which it does not carry" % (k, df, tc, st, f, prev[icao].get(f), rows[icao].get(f)))
+                # a Comm-B reply whose MB field is positively something else -- empty, or identified by its first byte as a
+                # BDS 2,0 / 3,0 report -- changes none of the OTHER registers' parameters (weather, selected altitude, ...)
+                if df in (20, 21):
+                    mbv = (v >> 24) & ((1 << 56) - 1)
+                    own = None
+                    if mbv == 0:
+                        own = set()
+                    elif mbv >> 48 == 0x20:
+                        own = {"ais"}
+                    elif mbv >> 48 == 0x30:
+                        own = {"te"}
+                    if own is not None:
+                        ch = [f for f in MB_FIELDS if f not in own and norm(f, rows[icao].get(f)) != norm(f, prev[icao].get(f))]
+                        if ch:
+                            fails.append("segment %d: DF%d reply with %s MB field changed %s" % (k, df, "an empty" if mbv == 0 else "a BDS %X,0" % (mbv >> 52), ch))
                 if prev_frame == lines[0] and prev_t == t and prev_existing:
                     ch = [f for f in rows[icao] if rows[icao][f] != prev[icao].get(f)]
                     if ch:
